@@ -197,13 +197,13 @@ def rule_last(ctx, rep):
         r.finding("didChange|unknown-selection", where, "cannot see how a content change is selected: %s" % ">".join(names[:6]))
 
 
-def rule_cache(ctx, rep):
-    r = rep.rule("R-C11-cache", "a Source's cached library is always the parse of its current text: Source fields are private and "
+def rule_cache(ctx, rep, rid="R-C11-cache"):
+    r = rep.rule(rid, "a Source's cached library is always the parse of its current text: Source fields are private and "
                                 "written only in Source::new / Source::library; FileBackedProject.sources is mutated only by the listed methods",
                  floor=6, floor_what="writers")
     adt = ctx.facts.adts.get(SRC)
     if not adt:
-        rep.error("R-C11-cache", "struct Source not found")
+        rep.error(rid, "struct Source not found")
         return
     for fld in adt["variants"][0]["fields"]:
         inst = "Source.%s|visibility" % fld["name"]
@@ -312,8 +312,8 @@ def rule_same(ctx, rep):
                       "%d calls to Project::semantic, %d direct analysis calls" % (len(cs), len(other)))
 
 
-def rule_stateless(ctx, rep):
-    r = rep.rule("R-C11-stateless", "the LSP adapter keeps no state of its own between notifications (LspProject wraps the project and nothing else; the "
+def rule_stateless(ctx, rep, rid="R-C11-stateless"):
+    r = rep.rule(rid, "the LSP adapter keeps no state of its own between notifications (LspProject wraps the project and nothing else; the "
                                     "server holds only the channel and the project), and LspProject::semantic runs Project::semantic on every path that "
                                     "has a file path - so published diagnostics are a function of the project's current sources", floor=3)
     a = ctx.facts.adts.get("ironplcc::lsp_project::LspProject")
